@@ -2,4 +2,4 @@
 Require Extraction.
 Require Import ExtrOcamlBasic.
 From NV Require Import Proto.CopCodec Proto.CopClient gen.CopConst.
-Extraction "../build/extract/ex_c16.ml" run deser_a orphans all_reaped wfb frame ser.
+Extraction "../build/extract/ex_c16.ml" run deser_a orphans all_reaped wfb frame ser stderr_report.
